@@ -28,6 +28,8 @@ struct Hist {
     bool specialFloats;
     bool analogIncomplete;   // loaded from a file whose ANALOG group lacks mandatory parameters (see run())
     bool columnOverGaps, columnOverGapsReported;   // a column was added while empty gap frames existed (recorded finding, see checkC05)
+    bool pendingUnspecified, hadUnspecified, fileOffSpec;   // an undocumented call was accepted (see afterMutator)
+    bool caseVariantNames;   // two parameters of one group differ by case only: not representable in a file (C01 not judged)
     bool offSpec;            // an undocumented (unspecified) call was accepted: shape agreement is no longer judged
     bool namedChannels;      // this history's caller names its channels (README leaves them unnamed)
     std::vector<Frame> callerFrames;          // caller-side frame objects handed over earlier (C08)
